@@ -196,7 +196,7 @@ func (a *An) c19Growth() {
 			}
 			reset := false
 			for _, st := range a.StoresTo(a.MustField("injections", "messages")) {
-				if st.Parent() == wi && strings.Contains(a.C.Term(st.Val), "[0:0]") {
+				if a.C.within(st, wi) && strings.Contains(a.C.Term(st.Val), "[0:0]") {
 					reset = true
 				}
 			}
@@ -209,7 +209,7 @@ func (a *An) c19Growth() {
 				if f == nil {
 					continue
 				}
-				for _, r := range a.returnsOf(f) {
+				for _, r := range a.returnsDeep(f, 0) {
 					through := false
 					for _, rv := range r.Results {
 						v := rv
@@ -227,10 +227,10 @@ func (a *An) c19Growth() {
 					if through {
 						continue
 					}
-					for _, b := range f.Blocks {
+					for _, b := range r.Parent().Blocks {
 						for _, in := range b.Instrs {
 							for _, ef := range a.E.InstrEffects(in) {
-								if strings.HasPrefix(a.C.abs(f, ef.Path), "Conversation.injections.messages") && canReach(in, r) {
+								if strings.HasPrefix(a.C.abs(r.Parent(), ef.Path), "Conversation.injections.messages") && canReach(in, r) {
 									return false, root + " has a return at " + a.C.InstrPos(r) + " that can follow an injection without draining it"
 								}
 							}
